@@ -479,6 +479,11 @@ pub fn run(a: &Args) -> Report {
     if let Some(path) = &a.replay {
         let v: Value = serde_json::from_str(&std::fs::read_to_string(path).unwrap_or_default()).unwrap_or_default();
         let c = &v["case"];
+        if c["class"] == "idle-then-call" {
+            let seed = c["seed"].as_str().and_then(|s| s.parse().ok()).unwrap_or(1);
+            super::guarded(&mut r, c.clone(), |r| idle_then_call(r, seed));
+            return r;
+        }
         if c["class"] == "unread-stream" {
             let seed = c["seed"].as_str().and_then(|s| s.parse().ok()).unwrap_or(1);
             super::guarded(&mut r, c.clone(), |r| unread_stream(r, seed));
@@ -586,6 +591,10 @@ pub fn run(a: &Args) -> Report {
             break;
         }
         super::guarded(&mut r, json!({"class":"unread-stream","seed":seed.to_string()}), |r| unread_stream(r, seed));
+    }
+    for _ in 0..(if a.quick() { 320 } else { 6400 }) / a.nshards.max(1) {
+        let seed = rng.u64();
+        super::guarded(&mut r, json!({"class":"idle-then-call","seed":seed.to_string()}), |r| idle_then_call(r, seed));
     }
     // fault enumeration over random scripts
     let scripts = (if a.quick() { 32 } else { 480 }) / a.nshards.max(1);
@@ -849,6 +858,73 @@ pub fn unread_stream(r: &mut Report, seed: u64) {
     }
     drop(stream);
     drop(x);
+    w.shutdown();
+    for (thread, loc, msg) in crate::take_panics() {
+        r.violation(&format!("panic/{loc}"), &format!("thread {thread} panicked: {msg}"), case.clone(), json!({}));
+    }
+}
+
+/// Calls after a quiet period: a client-mode node in a small responsive network (every round trip below
+/// 250 ms, nobody crashes, nothing is lost) is left alone for up to 4 min 50 s (no API call, no maintenance
+/// traffic yet), then one call is made. "Within a bounded time determined by the request timeout and the number
+/// of nodes contacted": here at most 3 s + 1 s per address the node sent to during the call.
+pub fn idle_then_call(r: &mut Report, seed: u64) {
+    use futures_lite::StreamExt;
+    r.eval();
+    let mut rng = Rng::new(seed);
+    let w = World::with_cfg(seed, NetCfg { lat_min: 5 * MS, lat_max: 120 * MS, random_ties: true }, TraceLevel::Off);
+    let servers = 3 + rng.usize(6);
+    let net = build_net(&w, servers, 0, IpPlan::Private, false, &mut rng);
+    let x_server = rng.chance(1, 3);
+    let x = match w.spawn(if x_server { NodeSpec::server(Ipv4Addr::new(10, 80, 0, 1), &[net.boot]) } else { NodeSpec::client(Ipv4Addr::new(10, 80, 0, 1), &[net.boot]) }) {
+        Ok(x) => x,
+        Err(_) => return,
+    };
+    w.block_on(x.adht.bootstrapped(), 60 * SEC);
+    // settle, then the quiet period (it ends before the first 5-minute maintenance round of the node)
+    w.run_for(3 * SEC);
+    let idle = *rng.pick(&[20 * SEC, 60 * SEC, 2 * MIN, 4 * MIN, 4 * MIN + 40 * SEC]);
+    w.run_for(idle);
+    let which = rng.usize(6);
+    let names = ["find_node", "get_immutable", "put_immutable", "bootstrapped", "get_peers", "announce_peer"];
+    let case = json!({"class":"idle-then-call","seed":seed.to_string(),"servers":servers,"origin_is_server":x_server,"idle_s":idle / SEC,"call":names[which]});
+    let xaddr = x.addr;
+    let contacted: std::sync::Arc<std::sync::Mutex<HashSet<SocketAddrV4>>> = Default::default();
+    let c2 = contacted.clone();
+    w.set_fault(Some(Box::new(move |info: &SendInfo| {
+        if info.from == xaddr {
+            c2.lock().unwrap_or_else(|e| e.into_inner()).insert(info.to);
+        }
+        None
+    })));
+    let a = x.adht.clone();
+    let t = Id::from(rng.array::<20>());
+    let v = rng.blob(3, 30);
+    let t_call = w.now();
+    let done: Option<()> = match which {
+        0 => w.block_on(async move { drop(a.find_node(t).await) }, 120 * SEC),
+        1 => w.block_on(async move { drop(a.get_immutable(t).await) }, 120 * SEC),
+        2 => w.block_on(async move { drop(a.put_immutable(&v).await) }, 120 * SEC),
+        3 => w.block_on(async move { drop(a.bootstrapped().await) }, 120 * SEC),
+        4 => w.block_on(async move { drop(a.get_peers(t).count().await) }, 120 * SEC),
+        _ => w.block_on(async move { drop(a.announce_peer(t, Some(4000)).await) }, 120 * SEC),
+    };
+    let took = w.now() - t_call;
+    w.set_fault(None);
+    let n_contacted = contacted.lock().unwrap_or_else(|e| e.into_inner()).len() as u64;
+    let bound = 3 * SEC + n_contacted * SEC;
+    r.count("idle_then_call_worlds");
+    r.nontrivial(mix(seed, w.order_hash()));
+    if done.is_none() {
+        r.violation(&format!("hang/{}/after-idle-period", names[which]), "a call made after a quiet period did not complete within 120 virtual seconds", case.clone(), json!({"contacted": n_contacted}));
+    } else if took > bound {
+        r.violation(&format!("slow/{}/after-idle-period", names[which]), "in a responsive, loss-free network a call made after a quiet period took longer than 3 s + 1 s per address contacted", case.clone(), json!({"took_ms": took / MS, "bound_ms": bound / MS, "contacted": n_contacted}));
+    }
+    if w.stuck() {
+        r.inconclusive("scheduler watchdog fired");
+    }
+    drop(x);
+    drop(net);
     w.shutdown();
     for (thread, loc, msg) in crate::take_panics() {
         r.violation(&format!("panic/{loc}"), &format!("thread {thread} panicked: {msg}"), case.clone(), json!({}));
